@@ -2,6 +2,7 @@ SPECIFICATION TSpec
 CONSTANTS
   Behaviors = {"A", "B", "C"}
   MaxOps = 8
+  MaxRestarts = 99
   Defects = {}
 CHECK_DEADLOCK FALSE
 INVARIANTS Refines WellFormed
